@@ -32,12 +32,12 @@ inductive WOp where
   | readLine (sp : Span)
   | print (sp : Span) (s : String)
   | fopen (sp : Span) (path : Val) (mode : Int)
-  | fclose (f : FId)
-  | fread (f : FId) (n : Int)
-  | fwrite (f : FId) (b : List UInt8)
-  | ftell (f : FId)
-  | fseek (f : FId) (off : Int) (whence : Nat)
-  | ftrunc (f : FId) (n : Option Int)
+  | fclose (sp : Span) (f : FId)
+  | fread (sp : Span) (f : FId) (n : Int)
+  | fwrite (sp : Span) (f : FId) (b : List UInt8)
+  | ftell (sp : Span) (f : FId)
+  | fseek (sp : Span) (f : FId) (off : Int) (whence : Nat)
+  | ftrunc (sp : Span) (f : FId) (n : Option Int)
   | importLit (sp : Span) (lits : List Int)
   | importPath (sp : Span) (path : String)
 deriving Inhabited
